@@ -3,6 +3,9 @@ package main
 import "time"
 
 var configs = map[string]checkCfg{
+	"C13": {QuickBudget: 150 * time.Second, ThoroughBudge: 20 * time.Minute,
+		Rule: "states = distinct inputs (all cell assignments of small tables and row-uniform larger ones x delimiter x EOL x final terminator; all record sequences of the NDJSON menu; every string over the csv converse alphabet and over the ndjson converse alphabet up to the length bound; damaged tables/streams with the damaged line at every position); transitions = (input, limit) executions (limit 0, len+1 and every limit from just after the second line terminator to len for positives; 0, len, len+1 for the converse); non-trivial = positive executions in truncated mode plus converse inputs",
+		Assumptions: []string{"not demanded: tables/streams whose first two lines include a blank or comment line, embedded newlines in quoted cells, bare quotes inside unquoted cells; blank lines are ignorable in tables as encoding/csv defines"}},
 	"C12": {QuickBudget: 150 * time.Second, ThoroughBudge: 20 * time.Minute,
 		Rule: "states = distinct documents (label x prologue x declaration form x name spelling x epilogue for HTML; label x leading whitespace x quote x standalone x version quote x root for XML); transitions = (document, limit) executions (0, 3072, end of the declaring tag, len; every cut from the end of the declaring tag to len+1 for the real labels); every document carries a declaration, so non-trivial = documents",
 		Assumptions: []string{"not demanded: whitespace inside the quotes of a label, unquoted value glued to />, labels merely starting with utf-16, XML preceded by a BOM, XML with spaces around =, two declarations, & in labels, upper-case <?XML"}},
